@@ -20,6 +20,7 @@ type Env struct {
 	depth    int
 	visKey   string
 	loopPre  *State // loop invariants: the state in which the loop was entered (before(e))
+	iterPre  *State // loop invariants: the state at the start of the current iteration (prev(e))
 }
 
 type cxError struct{ msg string }
@@ -883,6 +884,16 @@ func (e *Env) call(n *CNode) Val {
 		}
 		n2 := *e
 		n2.state = e.loopPre
+		return n2.expr(n.Args[0])
+	case "prev":
+		// prev(e): e at the start of the current iteration.  Where the invariant is established or assumed this is the
+		// current state (prev(e) == e); at the end of the loop body it is the state the iteration started in, so a
+		// conjunct over prev() is a claim about every single iteration (checked as inv-step, no knowledge after the loop).
+		if e.iterPre == nil {
+			cxFail("prev() is available in loop invariants only")
+		}
+		n2 := *e
+		n2.state = e.iterPre
 		return n2.expr(n.Args[0])
 	case "local":
 		// local(x): the current value of the local variable x that lives in memory (e.g. a parameter
